@@ -36,6 +36,10 @@ def objectives(jnp):
         "quartic": lambda x: jnp.sum((flat(x) ** 2 - 1.0) ** 2) + 0.1 * jnp.sum(flat(x)),
         "rosen": lambda x: jnp.sum(4.0 * (flat(x)[1:] - flat(x)[:-1] ** 2) ** 2 + (1.0 - flat(x)[:-1]) ** 2),
         "quad": lambda x: 0.5 * jnp.sum(jnp.arange(1., 4.) * flat(x) ** 2) - jnp.sum(flat(x)),
+        # weakly concave at the origin with a quartic wall of adjustable steepness: the first trial step length that lowers the energy
+        # (or none of the nine) is selected by q
+        **{"wall%g" % qq: (lambda x, qq=qq: jnp.sum(flat(x) - 0.005 * flat(x) ** 2 + qq * flat(x) ** 4))
+           for qq in (1e-6, 1e-4, 2e-3, 2e-2, 0.1, 1.0, 30.0)},
     }
 
 
@@ -44,9 +48,10 @@ def starts(rng, name):
             "cos": [[0.3, 0.2, 0.1], [3.1, 3.2, 3.0], [1.57, 1.57, 1.57]],
             "quartic": [[0.1, -0.1, 0.2], [1.2, -0.8, 0.9], [0.0, 0.0, 0.0], [2.0, 2.0, -2.0]],
             "rosen": [[-1.2, 1.0, 0.5], [0.0, 0.0, 0.0], [1.1, 1.2, 1.4]],
-            "quad": [[2.0, -1.0, 0.5], [0.0, 0.0, 0.0]]}[name]
+            "quad": [[2.0, -1.0, 0.5], [0.0, 0.0, 0.0]]}.get(name, [[0.0, 0.0, 0.0]])
     out = [np.array(b) for b in base]
-    out.append(rng.uniform(-2, 2, 3))
+    if not name.startswith("wall"):
+        out.append(rng.uniform(-2, 2, 3))
     return out
 
 
@@ -169,7 +174,8 @@ def judge(name, f, x0, kw, env):
             if fvec(o["x"]) > e0 + 1e-12 * max(1., abs(e0)):
                 truth["notuphill"] = False
             # convergence reported without ever moving although the gradient is not small and a shorter step would lower the energy
-            if o["status"] in (0, -1) and np.array_equal(o["x"], x0):
+            # (only where the solver did not evaluate a single trial point: with trials recorded the clause above judges its own step lengths)
+            if o["status"] in (0, -1) and np.array_equal(o["x"], x0) and not any(it["trials"] for it in its):
                 g, ghg = gH(x0)
                 if np.linalg.norm(g, 1) > 1e-3:
                     lower = any(fvec(x0 - s * g) < e0 for s in (1., .5, .25, .125, 1 / 16, 1 / 32, 1e-3))
